@@ -446,6 +446,8 @@ def main(tier):
     if tier == 'thorough':
         walks += [(b'/r', [b'a', b'a/b', b'a/b/c', b'a/b/c/d.py']), (b'/a b', [b'c d/e f.py', b'.x', b'b/b/b'])]
     fs_results += pmap(fsroot.run_walkfs, walks)
+    gl = [(1, None, 1, None), (2, None, 0, None), (0, 2, 1, None), (0, 1, 2, None), (0, 0, 1, None), (2, None, 1, ('top', 1)), (1, None, 1, ('ign', 0)), (0, 2, 0, ('list', 1))]
+    fs_results += pmap(fsroot.run_globs, gl)
     fs_seen = set()
     fs_violations = []
     for r in fs_results:
@@ -453,14 +455,34 @@ def main(tier):
             if v['role'] in fs_seen:
                 continue
             fs_seen.add(v['role'])
-            if v['fsroot'] == 'root':
+            if v['fsroot'] == 'globs':
+                fsroot.confirm_globs(binary, PROP, v, 0)
+            elif v['fsroot'] == 'root':
                 fsroot.confirm_root(binary, PROP, v, 0)
             else:
                 fsroot.confirm_walk(binary, PROP, v, 0)
             fs_violations.append(v)
         r2 = dict(r)
         r2['violations'] = []
+        r2['samples'] = []
         agg.add(r2)
+    # validation of these replays: on paths where the post-conditions hold, the real binary must agree
+    # (a replay that "confirms" on a passing path is wrong, and nothing it confirms may be believed)
+    if not fs_violations:
+        fs_samples = [s for r in fs_results for s in r.get('samples', [])]
+        rnd.shuffle(fs_samples)
+        picked = [s for s in fs_samples if s['fsroot'] == 'globs'][:4] + [s for s in fs_samples if s['fsroot'] == 'root'][:4]
+        picked.append(dict(fsroot='walk', role='sample', summary='sample'))
+        for smp in picked:
+            v = dict(smp)
+            {'globs': fsroot.confirm_globs, 'root': fsroot.confirm_root, 'walk': fsroot.confirm_walk}[v['fsroot']](binary, PROP, v, 90)
+            if v.get('confirmed'):
+                msg = 'replay of a passing %s path disagrees with the real binary: %s' % (v['fsroot'], json.dumps(v, default=str)[:600])
+                agg.validation_failures.append(msg)
+                agg.engine_errors.append({'engine_error': 'translator validation: ' + msg})
+                shutil.rmtree(v.get('replay', '/nonexistent'), ignore_errors=True)
+            else:
+                agg.validated += 1
     for r in results:
         agg.add(r)
     from . import mainwire
@@ -510,12 +532,13 @@ def main(tier):
     return finish(
         agg, bounds,
         assumptions=['globset matching, ignore::Walk (hidden / git-ignored files) and the current directory are stubs: allow(path), ignore(path), walked(path) are arbitrary booleans per path',
+                     'Args::globs / ignored_globs run on enumerated argument shapes (0-2 top-level globs or `list` with 0-2 globs, 0-2 --ignore patterns, one refused pattern) with globset as a recording stub',
                      'repository_root_path and FileSystemImpl::walk / read_to_string run on environment stubs: Path::is_dir is a Z3 boolean per <ancestor>/.git and /.hg, ignore::Walk yields entries whose kind (file, directory, error) Z3 chooses, fs::read_to_string records its argument; start directories of depth 0-3 (quick) / 0-4 (thorough)',
                      'unidiff::PatchSet::from_str is a stub returning one patched file with an arbitrary target path',
                      'targets without the b/ prefix whose own first component is `b` are outside the claim'],
         stubs=['FileSystem::walk', 'FileSystem::read_to_string', 'PathChecker::should_allow', 'PathChecker::should_ignore',
                'BlocksParser::parse', 'PatchSet::from_str', 'Path::is_dir', 'ignore::Walk::new', 'DirEntry::path', 'std::fs::read_to_string'],
-        must_cover=['main', 'scope-paths', 'diffpath', 'removed', 'diff-orders', 'root', 'walk'],
+        must_cover=['main', 'scope-paths', 'diffpath', 'removed', 'diff-orders', 'root', 'walk', 'globs'],
         explanation='per path: for every file, PC∧in_scope∧not read, PC∧¬in_scope∧read, read twice; diff key vs target minus one b/')
 
 
